@@ -1,6 +1,6 @@
 #!/usr/bin/env python3
-"""Collects the sub-agents' seeded changes from /tmp/seeded-out into /verif/seeded/<PROP>_<x>/ with meta.json,
-and writes seeded/RESULTS.md from /tmp/seeded-results.log."""
+"""Collects the sub-agents' seeded changes (delivered under /tmp/seeded<N>-out) into /verif/seeded/<id>/ with meta.json
+and writes seeded/RESULTS*.md from the queue logs (archived under seeded/logs). SEEDED_ROUND=1..8."""
 import json, os, re, shutil
 NEEDS = {
  "C03_a": "FastFixedIn calc_needed_len uses the mean step: a large *ramped ratio decrease* (e.g. 2.0 -> 0.5) makes the call write more frames than output_frames_next -> unchecked write past the buffer",
@@ -194,6 +194,8 @@ res = {}
 cur = None
 import itertools
 lines = []
+# the logs are archived under seeded/logs (the queues wrote them to /tmp)
+LOGS = [('/verif/seeded/logs/' + os.path.basename(l)) if os.path.exists('/verif/seeded/logs/' + os.path.basename(l)) else l for l in LOGS]
 for lg in LOGS:
     if os.path.exists(lg):
         tag = os.path.basename(lg).replace('.log', '')
@@ -221,7 +223,7 @@ for key in sorted(NEEDS):
     p, x = key.split('_')
     src = f"{SRC_ROOT}/{p}/variant_{x}"
     dst = f"/verif/seeded/{PREFIX}{key}"
-    if not os.path.exists(src + "/patch.diff"):
+    if not os.path.exists(src + "/patch.diff") and not os.path.exists(dst + "/patch.diff"):
         continue
     os.makedirs(dst, exist_ok=True)
     for f in ("patch.diff", "demo.rs", "notes.md"):
@@ -239,7 +241,7 @@ for key in sorted(NEEDS):
             f"tools/run_mutant.sh seeded/{key}/patch.diff quick {p}  (scratch copy of /repo + scratch build of the simulator under /tmp, removed afterwards)",
         ],
         "check_runs": runs,
-        "caught_by_quick_check": (lambda q: bool(q) and q[-1]['verdict'] == 'CAUGHT')([r for r in runs if 'thorough' not in r.get('stage', '') and r['property'] == p and r['verdict'] in ('CAUGHT', 'MISSED')]),
+        "caught_by_quick_check": (not any(r['verdict'] == 'NOT-APPLICABLE' for r in runs)) and (lambda q: bool(q) and q[-1]['verdict'] == 'CAUGHT')([r for r in runs if 'thorough' not in r.get('stage', '') and r['property'] == p and r['verdict'] in ('CAUGHT', 'MISSED')]),
         "caught_by_thorough_check": any(r['verdict'] == 'CAUGHT' and 'thorough' in r.get('stage', '') and r['property'] == p for r in runs),
         "caught_by_other_property_check": sorted(set(r['property'] for r in runs if r['verdict'] == 'CAUGHT' and r['property'] != p)),
         "caught_by_any_run": any(r['verdict'] == 'CAUGHT' for r in runs),
@@ -247,7 +249,7 @@ for key in sorted(NEEDS):
     }
     json.dump(meta, open(f"{dst}/meta.json", "w"), indent=1)
     clause = re.search(r'clause=([\w<>=!\-]+)', final.get('detail', ''))
-    tally.append((meta['caught_by_quick_check'], meta['caught_by_thorough_check'], bool(meta['caught_by_other_property_check']), any(r['verdict'] == 'NOT-APPLICABLE' for r in runs[-1:])))
+    tally.append((meta['caught_by_quick_check'], meta['caught_by_thorough_check'], bool(meta['caught_by_other_property_check']), any(r['verdict'] == 'NOT-APPLICABLE' for r in runs)))
     rows.append((PREFIX + key, p, ' / '.join(f"{r.get('stage','').replace('seeded2-','').replace('seeded3-','').replace('seeded4-','').replace('seeded5-','').replace('seeded6-','').replace('seeded7-','').replace('seeded8-','').replace('seeded-results','run')}{'' if r['property'] == p else '(' + r['property'] + ')'}:{r['verdict']}" for r in runs) or 'NOT-RUN', clause.group(1) if clause else '', len(runs), NEEDS[key]))
 with open({1: '/verif/seeded/RESULTS.md', 2: '/verif/seeded/RESULTS_round2.md', 3: '/verif/seeded/RESULTS_round3.md', 4: '/verif/seeded/RESULTS_round4.md', 5: '/verif/seeded/RESULTS_round5.md', 6: '/verif/seeded/RESULTS_round6.md', 7: '/verif/seeded/RESULTS_round7.md', 8: '/verif/seeded/RESULTS_round8.md'}[ROUND], 'w') as f:
     f.write("# Independent seeded changes (one sub-agent per property, two variants each)\n\n")
